@@ -876,5 +876,36 @@ def rule_r10(ctx) -> RuleResult:
     return rr
 
 
+def rule_r11(ctx) -> RuleResult:
+    """`{{t|0=x}}` binds `{{{0}}}`: whether a name is turned into an integer index is decided once where the argument is stored
+    and once where a reference is looked up, and the two decisions have to be the same predicate -- a name that is an integer
+    at one site and a string at the other is never found (seed C04-10A: `0` stored as the integer 0, looked up as "0")."""
+    from . import c14
+    rr = RuleResult("C04.R11", "a name is an integer index where it is stored iff it is one where it is looked up", min_instances=2)
+    c14._CTX = ctx
+    tb = X.template_branch(ctx)
+    loops = [n for st in tb for n in ast.walk(st) if isinstance(n, ast.For) and "args[1:]" in unparse(n.iter)]
+    if not loops:
+        raise AnalysisError("template branch: loop over the call's arguments not found")
+    afn = ctx.fn(X.ARGS)
+    arms = X.kind_arms(X.main_loop(afn), ctx=ctx)
+    if "A" not in arms:
+        raise AnalysisError("expand_args: `kind == 'A'` arm not found")
+    wp = c14._int_key_predicates(loops[-1])
+    rp = c14._int_key_predicates(ast.Module(body=list(arms["A"]), type_ignores=[]))
+    if not wp or not rp:
+        raise AnalysisError("{}: integer-key predicate not found (inconclusive)".format(X.RECURSE if not wp else X.ARGS))
+    (wt, wn), (rt, rn) = wp[0], rp[0]
+    if wt == rt:
+        rr.ok(X.RECURSE, "stored as an integer iff `{}`".format(wt))
+        rr.ok(X.ARGS, "looked up as an integer iff `{}`".format(rt))
+    else:
+        rr.bad(Finding("C04.R11", X.CORE, X.RECURSE, "stored as an integer iff `{}`, looked up as one iff `{}`".format(wt, rt),
+                       "the store and the lookup disagree about which names are integer indexes: a name for which only one of the two "
+                       "predicates holds (e.g. `0`, `+1`) is stored under one key type and looked up under the other, so "
+                       "`{{t|0=x}}` no longer binds `{{{0}}}`", wn.lineno))
+    return rr
+
+
 def run(ctx) -> list:
-    return [rule_r10(ctx), rule_r1(ctx), rule_r2(ctx), rule_r3(ctx), rule_r4(ctx), rule_r5(ctx), rule_r6(ctx), rule_r7(ctx), rule_r8(ctx), rule_r9(ctx)]
+    return [rule_r10(ctx), rule_r1(ctx), rule_r2(ctx), rule_r3(ctx), rule_r4(ctx), rule_r5(ctx), rule_r6(ctx), rule_r7(ctx), rule_r8(ctx), rule_r9(ctx), rule_r11(ctx)]
